@@ -90,9 +90,11 @@ fn main() {
                 let cfg = suite_engine::Cfg{props};
                 if let Some(body) = arg_val(&args, "--replay-case") {
                     if body == "timer-real" { suite_timer::run_real_timer(&mut out, &cfg, 2); }
+                    else if body == "timer-stopped" { suite_timer::run_stopped(&mut out, &cfg, seed, n); }
                     else { match suite_timer::dec_case(&body) { Some(c) => suite_timer::emit(&mut out, &cfg, &c), None => { eprintln!("cannot decode case"); std::process::exit(2); } } }
                 }
                 else if has(&args, "--real") { suite_timer::run_real_timer(&mut out, &cfg, n); }
+                else if has(&args, "--stopped") { suite_timer::run_stopped(&mut out, &cfg, seed, n); }
                 else if has(&args, "--all-ticks") { suite_timer::run_all_ticks(&mut out, &cfg, seed, n); }
                 else { suite_timer::run_random(&mut out, &cfg, seed, n, has(&args, "--interleave")); }
             },
